@@ -129,9 +129,29 @@ class World(BaseWorld):
             return "le", [[enc_key((x,)), 1], [enc_key((y,)), 1], [[], -2]]
         return rng.choice(["le", "lt", "ge", "gt"]), [[enc_key((x,)), -1], [enc_key((y,)), -2], [[], 1]]
 
+    def gen_skewed(self, rng):
+        """Ranges that straddle zero asymmetrically ([-m, 1], [-1, m], [-m, 2] ...): slack sizing must cover the long side."""
+        L = self.labels
+        k = rng.randint(2, min(4, len(L)))
+        vs = rng.sample(L, k)
+        sign = rng.choice([1, -1])
+        coefs = [rng.choice([1, 2, 3, 3, 4]) for _ in vs]
+        S = sum(coefs)
+        if self.kind == BOOL:
+            off = -sign * rng.choice([1, 1, 2])          # range [off, off + S] or [off - S, off]
+        else:
+            off = sign * (S - rng.choice([1, 1, 2]))      # range [off - S, off + S]
+        terms = [[enc_key((v,)), sign * c] for v, c in zip(vs, coefs)] + [[[], off]]
+        if rng.random() < 0.3 and k >= 2:
+            terms.append([enc_key(tuple(sorted(vs[:2], key=sort_key))), sign * rng.choice([1, 2])])
+        return rng.choice(RELS), terms
+
     def gen_cons(self, rng):
         c = self.cfg
-        if self.kind == BOOL and rng.random() < c["p_special"]:
+        r = rng.random()
+        if r < c.get("p_skewed", 0.2):
+            rel, terms = self.gen_skewed(rng)
+        elif self.kind == BOOL and r < c.get("p_skewed", 0.2) + c["p_special"]:
             rel, terms = self.gen_special(rng)
         else:
             rel = rng.choice(RELS)
@@ -157,7 +177,12 @@ class World(BaseWorld):
                 lam = int(lam)
         else:
             lam = rng.choice(c["lams"])
-        return {"op": "cons", "rel": rel, "P": terms, "lam": lam, "log_trick": log_trick, "bounds": bounds}
+        op = {"op": "cons", "rel": rel, "P": terms, "lam": lam, "log_trick": log_trick, "bounds": bounds}
+        if rng.random() < c.get("p_model_arg", 0.3):
+            # the constraint is handed over as a live model object which the caller keeps editing afterwards
+            op["as"] = rng.choice(["PUBO", "PCBO"] if self.kind == BOOL else ["PUSO", "PCSO"])
+            op["mutate_after"] = rng.choice(["iadd_const", "iadd_var", "isub_self", "clear", "none"])
+        return op
 
     def gen_logic(self, rng):
         name = rng.choice(LOGIC)
@@ -236,6 +261,9 @@ class World(BaseWorld):
         for k, v in terms:
             Parg[k] = Parg.get(k, 0) + v
         Parg0 = dict(Parg)
+        if op.get("as"):
+            Parg = getattr(self.qv, op["as"])(Parg)
+            Parg0 = dict(dict.items(Parg))
         kw = {"lam": op["lam"]}
         if rel != "eq":
             kw["log_trick"] = bool(op["log_trick"])
@@ -263,7 +291,7 @@ class World(BaseWorld):
         except Exception as e:
             self.fail("unexpected_exception", "%s: %s: %s" % (where, type(e).__name__, e))
             raise Discard("exception in constraint")
-        if Parg != Parg0:
+        if dict(Parg) != Parg0:
             self.probe("other_property_oracle:argument_mutated")
         H_after = self.stored()
         msgs = [str(x.message) for x in self.wlist]
@@ -306,6 +334,27 @@ class World(BaseWorld):
         if got != want and not self.logic:
             self.fail("constraint_recorded_wrong", "%s: recorded constraints %r, expected %r" % (where, got, want))
         self.check_valid(where)
+        if op.get("as") and op.get("mutate_after", "none") != "none":
+            # injected fault: the caller goes on editing the object it passed; the recorded constraint must not follow
+            try:
+                m = op["mutate_after"]
+                l0 = self.labels[0]
+                if m == "iadd_const":
+                    Parg += 5
+                elif m == "iadd_var":
+                    Parg[(l0,)] += 3
+                elif m == "isub_self":
+                    Parg -= Parg
+                else:
+                    Parg.clear()
+            except Exception:
+                pass
+            self.fault("argument_object_mutated_after_call")
+            got = self.recorded().canonical()
+            if got != want and not self.logic:
+                self.fail("constraint_recorded_wrong", "%s: after the caller edited the object it had passed (%s), the recorded constraints became %r, expected %r" %
+                          (where, op["mutate_after"], got, want))
+            self.check_valid(where + " after argument mutation")
         self.interesting = self.interesting or bool(new) or warned_unsat
         return [rel, sorted(map(str, new)), warned_unsat, always]
 
@@ -621,7 +670,7 @@ def gen_cfg(rng, prop, tier):
         "obj_vars": rng.choice([2, 3, 4]), "obj_deg": rng.choice([1, 2, 2, 3]), "obj_coefs": rng.choice([[-1, 1], [-2, -1, 1, 2], [-3, -1, 1, 2]]),
         "cons_vars": rng.choice([2, 3, 4]), "cons_deg": rng.choice([1, 1, 2, 3]), "cons_coefs": rng.choice([[-1, 1], [-2, -1, 1, 2], [-3, -2, -1, 1, 2, 3]]),
         "lams": rng.choice([[1], [0.5, 1, 1.5, 2, 3, 4], [2, 4], [0.5]]),
-        "p_special": rng.choice([0.0, 0.3, 0.6]),
+        "p_special": rng.choice([0.0, 0.3, 0.6]), "p_skewed": rng.choice([0.0, 0.2, 0.5]), "p_model_arg": rng.choice([0.0, 0.3, 0.6]),
         "max_cons": rng.choice([1, 2, 3, 5]),
         "w_logic": 0, "w_obj": rng.choice([0, 0.5, 1.5]), "w_hist": rng.choice([0, 0.5, 1.5]), "w_obs": rng.choice([0, 0.5]),
         "n_ops": rng.choice([2, 4, 7, 12]),
